@@ -298,6 +298,23 @@ def project(spec, desc, cfg, o, res, calls, crash) -> dict:
                 dval[p0] = float(v)
             except Exception:
                 dval[p0] = None
+    # trend utilities (C15): what utils.py returns for every rank idx and every generation
+    trend_raw, tpos_raw, sub_raw = [], [], None
+    if res is not None:
+        import pyvolutionary.utils as U
+        nmin = min(len(g.agents) for g in res.evolution)
+        try:
+            for idx in range(nmin):
+                trend_raw.append(list(U.agent_trend(res, idx)))
+                tpos_raw.append([pid(x) for x in U.agent_position(res, idx)])
+            its = sorted(set(range(0, len(res.evolution), 2)))
+            sub_raw = {"iters": [k + 1 for k in its], "trend": list(U.best_agent_trend(res, its)), "pos": [pid(x) for x in U.best_agent_position(res, its)],
+                       "full": list(U.best_agent_trend(res)), "fullpos": [pid(x) for x in U.best_agent_position(res)]}
+            for row in trend_raw:
+                for v in row:
+                    rk.add(v)
+        except Exception as ex:
+            trend_raw, tpos_raw, sub_raw = None, None, None
     # calls: argument positions interned in the same table
     nph = max([c[0] for c in calls], default=-1) + 1
     callp = [[] for _ in range(max(nph, len(snaps)))]
@@ -345,6 +362,11 @@ def project(spec, desc, cfg, o, res, calls, crash) -> dict:
         "evo": [[[p, rk.rk(u), f] for (p, u, f) in gl] for gl in evo],
         "best": [best[0], rk.rk(best[1]), best[2]] if best else [1, 0, 1],
         "calls": callp, "crash": crash, "completed": res is not None,
+        "trend_ok": trend_raw is not None,
+        "trend": [[rk.rk(v) for v in row] for row in (trend_raw or [])], "tpos": tpos_raw or [],
+        "sub": ({"iters": sub_raw["iters"], "trend": [rk.rk(v) for v in sub_raw["trend"]], "pos": sub_raw["pos"],
+                 "full": [rk.rk(v) for v in sub_raw["full"]], "fullpos": sub_raw["fullpos"]} if sub_raw else
+                {"iters": [], "trend": [], "pos": [], "full": [], "fullpos": []}),
         # harness-side detail for keying violations (not read by TLC)
         "x_sites": {str(p): sorted(s) for p, s in csite.items() if not _member(kinds, ptab[p - 1])},
         "x_ncalls": len(calls),
@@ -386,7 +408,7 @@ def run_all(specs: list[dict], jobs: int = 14, timeout: int = 120) -> list[dict]
 
 TLC_FIELDS = ["id", "N", "dir", "D", "sizecls", "elitist", "kindp", "mc", "hasFe", "hasEs", "pat", "lefe", "dec", "nrates",
               "rate_ok", "steps", "gens", "ptab", "ftab", "dtab", "stab", "snaps", "evo", "best", "calls", "crash",
-              "completed", "cfg_same", "task_same"]
+              "completed", "cfg_same", "task_same", "trend_ok", "trend", "tpos", "sub"]
 
 
 def judge_runs(records: list[dict], tag: str):
